@@ -227,7 +227,7 @@ impl FragmentedMuxer {
         let first_dts = self.samples[0].dts;
         let last_dts = self.samples.last().unwrap().dts;
         let duration_ticks = last_dts.saturating_sub(first_dts);
-        let duration_ms = duration_ticks * 1000 / self.config.timescale as u64;
+        let duration_ms = duration_ticks.saturating_mul(1000) / (self.config.timescale as u64).max(1);
 
         duration_ms >= self.config.fragment_duration_ms as u64
     }
@@ -240,7 +240,7 @@ impl FragmentedMuxer {
         let first_dts = self.samples[0].dts;
         let last_dts = self.samples.last().unwrap().dts;
         let duration_ticks = last_dts.saturating_sub(first_dts);
-        duration_ticks * 1000 / self.config.timescale as u64
+        duration_ticks.saturating_mul(1000) / (self.config.timescale as u64).max(1)
     }
 }
 
